@@ -855,6 +855,25 @@ Proof.
   destruct Ok as (Ha & Hb & Hc & Hd). repeat split; eapply H; eauto.
 Qed.
 
+Lemma cache_invariant_explicit s : reachable K s ->
+  (forall i, In i (visible s) -> (i < length (hp s))%nat) /\
+  (forall k a b c d, In (k, (a, b, c, d)) (cache s) ->
+     let '(cR, cS, cU, cV) := coords k in
+     (hget (hp s) a = Some (mkcell cR false) /\ ~ In a (visible s)) /\
+     (hget (hp s) b = Some (mkcell cS false) /\ ~ In b (visible s)) /\
+     (hget (hp s) c = Some (mkcell cU false) /\ ~ In c (visible s)) /\
+     (hget (hp s) d = Some (mkcell cV false) /\ ~ In d (visible s))).
+Proof.
+  intros R. destruct (cache_invariant s R) as [W C]. split; [exact W|].
+  intros k a b c d H. exact (C _ H).
+Qed.
+
+Lemma cache_never_written_explicit s o k a b c d :
+  inv s -> In (k, (a, b, c, d)) (cache s) ->
+  ~ In a (o_writes (snd (step K s o))) /\ ~ In b (o_writes (snd (step K s o))) /\
+  ~ In c (o_writes (snd (step K s o))) /\ ~ In d (o_writes (snd (step K s o))).
+Proof. intros I H. exact (cache_never_written s o _ I H). Qed.
+
 Lemma history_independent ops s : inv s -> Forall (dft_ok K) (trace K s ops).
 Proof. apply history_dft. Qed.
 
